@@ -45,15 +45,13 @@ Lemma target_ok_restyle f a v : target_ok (map (restyle f) a) v = target_ok a v.
 Proof. unfold target_ok. destruct v as [|k]; [reflexivity|]. rewrite nth_error_map'. destruct (nth_error a k) as [l|]; [destruct l|]; reflexivity. Qed.
 
 Theorem style_interchangeable q f repo a v r :
-  q_splitlines_unicode q = false -> q_next_line_hash_only q = false -> q_file_hash_only q = false ->
-  q_block_end_before q = false -> q_bare_line_unsupported q = false -> q_bare_file_unsupported q = false ->
-  q_start_rules_from_code q = false ->
+  q_splitlines_unicode q = false -> q_start_rules_from_code q = false ->
   file_ok a = true -> target_ok a v = true -> nonempty r = true ->
   should_ignore q repo (render (map (restyle f) a)) v r = should_ignore q repo (render a) v r.
 Proof.
-  intros Q0 Q1 Q2 Q3 Q4 Q5 Q6 H T Hr.
-  rewrite (should_ignore_exact_ideal q repo a v r Q0 Q1 Q2 Q3 Q4 Q5 Q6 H T Hr).
-  rewrite (should_ignore_exact_ideal q repo (map (restyle f) a) v r Q0 Q1 Q2 Q3 Q4 Q5 Q6);
+  intros Q0 Q6 H T Hr.
+  rewrite (should_ignore_exact_ideal q repo a v r Q0 Q6 H T Hr).
+  rewrite (should_ignore_exact_ideal q repo (map (restyle f) a) v r Q0 Q6);
     [apply spec_restyle|now rewrite file_ok_restyle|now rewrite target_ok_restyle|exact Hr].
 Qed.
 
@@ -339,14 +337,14 @@ Proof.
 Qed.
 
 (* ---------- the four directive forms, model side (main theorem + scope) ---------- *)
+(* the flags whose source variant still deviates from the property; flags 1-5 (next-line and file markers, block end, bare
+   directives) may have either value: since the fix: commits the source's own tables / fallbacks meet the specification *)
 Definition flags_off (q : iquirks) : Prop :=
-  q_splitlines_unicode q = false /\ q_next_line_hash_only q = false /\ q_file_hash_only q = false /\
-  q_block_end_before q = false /\ q_bare_line_unsupported q = false /\ q_bare_file_unsupported q = false /\
-  q_start_rules_from_code q = false.
+  q_splitlines_unicode q = false /\ q_start_rules_from_code q = false.
 
 Lemma exact_off q repo a v r : flags_off q -> file_ok a = true -> target_ok a v = true -> nonempty r = true ->
   should_ignore q repo (render a) v r = spec repo a v r.
-Proof. intros (Q0 & Q1 & Q2 & Q3 & Q4 & Q5 & Q6). now apply should_ignore_exact_ideal. Qed.
+Proof. intros (Q0 & Q6). now apply should_ignore_exact_ideal. Qed.
 
 Theorem same_line_exact q pre c st n post v r : flags_off q ->
   forallb is_plain pre = true -> forallb is_plain post = true ->
